@@ -170,7 +170,9 @@ func c03Exec(ctx *vk.Ctx, c c03Case) error {
 	if err != nil {
 		return fmt.Errorf("P: final Dump() failed: %v", err)
 	}
-	if restarts > 0 {
+	if restarts > 0 && ctx.Tier() == "thorough" {
+		// second rebuild before a last read (thorough tier only: a rebuild
+		// costs 10-40 s on the loaded machine)
 		if err := p.C.Restart(); err != nil {
 			return fmt.Errorf("P: final restart: %v", err)
 		}
@@ -239,7 +241,7 @@ func c03Exec(ctx *vk.Ctx, c c03Case) error {
 	return nil
 }
 
-const c03Rule = "rapid: typed grammar of realm programs (1-3 declared structs with methods, 5-8 package variables of nesting depth <= 3 over int/string/bool/uint8, arrays, slices incl. sub-slices of one backing array and spare capacity, maps, pointers incl. pointers into arrays/struct fields/slice elements, closures capturing variables, pointers and slices, an interface holding declared pointer/value types), init() with alias-making statements, 3-8 crossing functions of 2-5 guarded statements over generated places, 3-15 calls with arguments; P = one MsgCall tx per call (objects reloaded every tx; application rebuilt from the DB at one drawn call boundary and again before the final Dump() in half of the cases), M = the whole sequence in memory at the end of init() of the same package deployed on a second chain (nothing persisted before or between the calls); non-trivial = the program text has an alias-making construct and some call changed the rendering of a variable that the called function does not write through (a write through one alias, made after a persistence boundary, read through another)"
+const c03Rule = "rapid: typed grammar of realm programs (1-3 declared structs with methods, 5-8 package variables of nesting depth <= 3 over int/string/bool/uint8, arrays, slices incl. sub-slices of one backing array and spare capacity, maps, pointers incl. pointers into arrays/struct fields/slice elements, closures capturing variables, pointers and slices, an interface holding declared pointer/value types), init() with alias-making statements, 3-8 crossing functions of 2-5 guarded statements over generated places, 3-15 calls with arguments; P = one MsgCall tx per call (objects reloaded every tx; application rebuilt from the DB at one drawn call boundary (thorough tier: and again before the final Dump()) in half of the cases), M = the whole sequence in memory at the end of init() of the same package deployed on a second chain (nothing persisted before or between the calls); non-trivial = the program text has an alias-making construct and some call changed the rendering of a variable that the called function does not write through (a write through one alias, made after a persistence boundary, read through another)"
 
 func TestC03_Transparency(t *testing.T) {
 	vk.Run(t, vk.Spec[c03Case]{ID: "C03", Name: "TestC03_Transparency", Rule: c03Rule, Draw: c03Draw, Exec: c03Exec})
